@@ -13,6 +13,8 @@ pub enum Family {
     Divergent,
     IoPressure,
     Brackets,
+    Idioms,
+    Long,
 }
 
 impl Family {
@@ -26,6 +28,8 @@ impl Family {
             Family::Divergent => "F6-divergent",
             Family::IoPressure => "F8-io-pressure",
             Family::Brackets => "F9-bracket-dense",
+            Family::Idioms => "F10-classic-idioms",
+            Family::Long => "F11-long-straight-line",
         }
     }
 }
@@ -1134,6 +1138,119 @@ pub fn brackets(rng: &mut Rng) -> String {
 }
 
 // ---------------------------------------------------------------------------------
+// F10: classic idioms from the wild (divmod, decimal printing, comparisons, if/else),
+// strung together on overlapping cells. Their *intended* meaning is irrelevant: the
+// reference model says what they do; what matters is their shape (conditional pointer
+// moves, loops that end on a different cell than they started, flags).
+
+pub const IDIOMS: &[&str] = &[
+    // divmod  n d -> 0 d-n%d n%d n/d
+    "[->-[>+>>]>[+[-<+>]>+>>]<<<<<]",
+    "[->+>-[>+>>]>[+[-<+>]>+>>]<<<<<<]",
+    // print cell as decimal
+    ">>++++++++++<<[->+>-[>+>>]>[+[-<+>]>+>>]<<<<<<]>>[-]>>>++++++++++<[->-[>+>>]>[+[-<+>]>+>>]<<<<<]>[-]>>[>++++++[-<++++++++>]<.<<+>+>[-]]<[<[->-<]++++++[->++++++++<]>.[-]]<<++++++[-<++++++++>]<.[-]<<[-<+>]",
+    // x == y
+    "[->-<]+>[<->[-]]<",
+    // logical not with temp
+    ">+<[>-<[-]]>[<+>-]<",
+    // if (x) {A} else {B}
+    ">+<[>-<[-]>>+.<<]>[->>-.<<]<",
+    // x = x < y (wrapping, destructive)
+    ">>+<<[->[->>+<]>[<]<<]>[-]>[-<<+>>]<<",
+    // copy x to two places and back
+    "[->+>+<<]>>[-<<+>>]<<",
+    // multiply x*y -> z
+    "[->[->+>+<<]>>[-<<+>>]<<<]",
+    // square
+    "[->+>+<<]>[->[->+>+<<]>>[-<<+>>]<<<]",
+    // find zero to the right, come back to a marker
+    "[>]<[<]>",
+    "+[>+]<[<]>",
+    // swap
+    "[->>+<<]>[-<+>]>[-<+>]<<",
+    // x = x / 2 with remainder
+    "[->+>>+<<<]>[-[-<+>>]>[-<<+>+>]<<]",
+    // sum a run of cells leftwards
+    "[>]<[[-<+>]<]",
+    // decrement-until-equal (min)
+    "[>[->+>+<<]>>[-<<+>>]<[[-]<<->>]<<]",
+];
+
+pub fn idioms(rng: &mut Rng) -> String {
+    let mut s = String::new();
+    // a few inputs / constants on neighbouring cells
+    let k = rng.urange(2, 5);
+    for _ in 0..k {
+        match rng.below(3) {
+            0 => s.push_str(&"+".repeat(rng.urange(1, 12))),
+            _ => s.push(','),
+        }
+        s.push('>');
+    }
+    s.push_str(&"<".repeat(k));
+    let n = rng.urange(1, 4);
+    for _ in 0..n {
+        // reposition a little
+        match rng.below(4) {
+            0 => s.push('>'),
+            1 => s.push('<'),
+            2 => s.push_str(">>"),
+            _ => {}
+        }
+        if rng.chance(1, 3) {
+            s.push(',');
+        }
+        s.push_str(*rng.pick(IDIOMS));
+        if rng.chance(1, 2) {
+            s.push_str(*rng.pick(&[".", ">.<", ">.>.<<", "<.>", ".>.>.>.<<<"][..]));
+        }
+    }
+    // dump a window
+    s.push_str("<<.>.>.>.>.>.");
+    s
+}
+
+// ---------------------------------------------------------------------------------
+// F11: long, mostly straight-line programs (10^4-10^5 bytecode instructions): deep
+// tail-call chains in the release dispatcher, large machine-code buffers, rel32 branches
+// across the whole program.
+
+pub fn long_straight(rng: &mut Rng) -> String {
+    let big = rng.chance(1, 4);
+    let n = rng.urange(4_000, if big { 60_000 } else { 15_000 });
+    let mut s = String::with_capacity(n * 3);
+    let wrap_in_loop = rng.chance(1, 3);
+    if wrap_in_loop {
+        s.push_str("+[");
+    }
+    let mut outs = 0;
+    for _ in 0..n {
+        match rng.below(24) {
+            0..=5 => s.push_str("+>"),
+            6..=9 => s.push_str("-<"),
+            10..=12 => s.push('+'),
+            13 => s.push_str("[-]"),
+            14 => s.push_str("[->+<]"),
+            15 => s.push_str(">"),
+            16 => s.push_str("<"),
+            17 => {
+                if outs < 300 {
+                    s.push('.');
+                    outs += 1;
+                }
+            }
+            18 => s.push_str("+>+<"),
+            _ => s.push_str("->"),
+        }
+    }
+    if wrap_in_loop {
+        s.push_str("[-]]");
+    }
+    s.push_str(".>.");
+    s
+}
+
+// ---------------------------------------------------------------------------------
 // F7: comment salting
 
 pub fn salt(rng: &mut Rng, prog: &str) -> String {
@@ -1160,6 +1277,8 @@ pub fn program(rng: &mut Rng, fam: Family, width: u32, corpus: &[String], big: b
         Family::Divergent => divergent(rng),
         Family::IoPressure => io_pressure(rng),
         Family::Brackets => brackets(rng),
+        Family::Idioms => idioms(rng),
+        Family::Long => long_straight(rng),
     };
     if rng.chance(1, 8) {
         salt(rng, &p)
